@@ -620,10 +620,8 @@ Definition get_or_update (cfg : stack_cfg) (k : key) (j : judge) (pop : populate
           match a with
           | Replace => populate_phase cfg k pop (Some f)
           | _ =>
-              try (accept_checks cfg k pop f) (fun compared =>
-              (* F3 (pinned behaviour): when populate reports NotFound under a
-                 checker, the hit is returned as is — Promote is skipped *)
-              if negb compared then Ret (Ok f) else
+              try (accept_checks cfg k pop f) (fun _ =>
+              (* NotFound from populate only skips the comparison (repair of F3) *)
               match a, s_writer cfg with
               | Promote, Some w => promote cfg w k f
               | _, _ => Ret (Ok f)
